@@ -153,9 +153,11 @@ fn cut_exact(b: &Blk, rs: &[(u64, Vec<u8>)], cut: usize) -> bool {
 	true
 }
 
-struct Ctx { rec: Rec, rng: Rng, tab: Tab, thorough: bool, stats: BTreeMap<String, u64>, in_corruption: bool }
+struct Ctx { rec: Rec, rng: Rng, tab: Tab, thorough: bool, stats: BTreeMap<String, u64>, in_corruption: bool, once: BTreeSet<String> }
 impl Ctx {
 	fn bump(&mut self, k: &str) { *self.stats.entry(k.to_string()).or_insert(0) += 1; }
+	/// report a failure class once per run (later occurrences are only counted): the list of failing inputs is capped
+	fn fail_once(&mut self, key: &str, s: String) { if self.once.insert(key.to_string()) { self.fail(s); } else { self.bump(&format!("repeated-failure:{}", key)); } }
 	fn fail(&mut self, s: String) { self.rec.oracle_fail(s.chars().map(|c| if c.is_control() { ' ' } else { c }).take(900).collect()); }
 
 	/// real verdict of reading `bytes` as the object: ("ok"|"err X"|"panic …", re-encoding, unread)
@@ -314,7 +316,7 @@ struct St {
 	epoch: u64,
 	upd_pool: Vec<Vec<u8>>, ev_pool: Vec<Vec<u8>>, det_pool: Vec<Vec<u8>>, mon_pool: Vec<(Vec<u8>, usize)>,
 	pool_keys: BTreeSet<u64>,
-	n_mon_rt: u64, n_mon_identical: u64, n_upd_rt: u64, n_apply: u64, n_apply_skipped: u64, n_det: u64, n_ev: u64, n_mgr: u64, n_graph: u64, n_scorer: u64,
+	n_mon_rt: u64, n_mon_identical: u64, n_upd_rt: u64, n_apply: u64, n_apply_skipped: u64, n_det: u64, n_ev: u64, n_mgr: u64, n_graph: u64, n_scorer: u64, n_shadow: u64, n_rare_runs: u64, n_rare_cuts: u64,
 	mon_states: BTreeSet<String>,
 }
 fn histogram(b: &[u8]) -> [u32; 256] { let mut h = [0u32; 256]; for x in b { h[*x as usize] += 1; } h }
@@ -482,6 +484,152 @@ fn check_graph_scorer(net: &Net, i: usize, st: &mut St, ctx: &mut Ctx, op: &str)
 	Some(bytes)
 }
 
+// ---------------------------------------------------------------------------------------------------
+// (v) deep manager equivalence: the hook `manager_persisted_state_dump` prints what a ChannelManager persists outside
+// of its channels (claimable payments per HTLC, pending claims, forwards, intercepted HTLCs, HTLCs awaiting decoding,
+// outbound payment states, pending / background events, blocked completion actions, in-flight update ids).  The dump of
+// the manager BEFORE it is written must equal the dump of the manager read back from those bytes, up to what a reload
+// legitimately does:
+//   * `timer_ticks` of a claimable HTLC is in-memory only (the reader sets 0): masked;
+//   * pending events: every event pending before is still pending, in the same relative order; a reload may ADD events
+//     (replays of HTLCIntercepted / PaymentClaimed / PaymentSent …): counted per kind, not a difference;
+//   * background events are generated by the read itself (never written); in-flight monitor update ids and the
+//     completion actions blocked on them are resolved by the read when the monitors handed to it are up to date (the
+//     harness always hands over the latest monitors): they may only DISAPPEAR, and a pending claim may only disappear
+//     together with its blocked action; nothing of these kinds may appear.
+// Everything else (claimable payments and their HTLCs, forwards, intercepts, decode queue, outbound payments) must be
+// line-for-line equal.
+// ---------------------------------------------------------------------------------------------------
+fn mask_token(s: &str, key: &str) -> String {
+	let mut out = String::new();
+	let mut rest = s;
+	while let Some(p) = rest.find(key) {
+		out.push_str(&rest[..p + key.len()]); out.push('_');
+		let tail = &rest[p + key.len()..];
+		rest = &tail[tail.find(' ').unwrap_or(tail.len())..];
+	}
+	out.push_str(rest);
+	out
+}
+/// in-memory-only parts of the dump: `timer_ticks` of a claimable HTLC (the reader sets 0); `retry_strategy` / `attempts`
+/// of a Retryable outbound payment (declared `(not_written, …, (static_value, …))` in the enum's field list)
+fn mask_ticks(s: &str) -> String { mask_token(&mask_token(&mask_token(s, "timer_ticks="), " retry="), " attempts=") }
+fn line_kind(s: &str) -> &str { s.split(' ').next().unwrap_or("") }
+fn event_body(s: &str) -> String { // "event #3 Xyz {..} action=.." -> "Xyz {..} action=.."
+	let mut it = s.splitn(3, ' '); it.next(); it.next(); it.next().unwrap_or("").to_string()
+}
+fn event_kind(body: &str) -> String { body.split(|c: char| !c.is_alphanumeric()).next().unwrap_or("").to_string() }
+
+/// differences not explained by a reload; `added` collects the kinds of what the reload added / resolved (statistics)
+fn deep_diff(before: &[String], after: &[String], added: &mut Vec<String>) -> Vec<String> {
+	let mut diffs = vec![];
+	let strict = ["claimable", "forward", "intercepted", "decode_update_add", "outbound"];
+	let pick = |v: &[String], k: &str| -> Vec<String> { let mut x: Vec<String> = v.iter().filter(|l| line_kind(l) == k).map(|l| mask_ticks(l)).collect(); x.sort(); x };
+	for k in strict {
+		let (a, b) = (pick(before, k), pick(after, k));
+		if a != b {
+			let key = |l: &str| -> String { l.split(' ').take(2).collect::<Vec<_>>().join(" ") };
+			let only_a: Vec<&String> = a.iter().filter(|l| !b.contains(l)).collect();
+			let mut only_b: Vec<&String> = b.iter().filter(|l| !a.contains(l)).collect();
+			for l in only_a {
+				// the same item on both sides with different content: show the differing tokens
+				if let Some(p) = only_b.iter().position(|m| key(m) == key(l)) {
+					let m = only_b.remove(p);
+					let (ta, tb): (Vec<&str>, Vec<&str>) = (l.split(' ').collect(), m.split(' ').collect());
+					let toks: Vec<String> = if ta.len() == tb.len() { ta.iter().zip(tb.iter()).filter(|(x, y)| x != y).map(|(x, y)| format!("`{}` before the write, `{}` after the reload", x, y)).take(6).collect() } else { vec![format!("`{}` before the write, `{}` after the reload", l, m)] };
+					diffs.push(format!("{} changed: {}", key(l), toks.join("; ")));
+				} else { diffs.push(format!("only before the write: {}", l)); }
+			}
+			for l in only_b { diffs.push(format!("only after the reload: {}", l)); }
+			if a.len() != b.len() && diffs.is_empty() { diffs.push(format!("{} lines of kind {} before, {} after", a.len(), k, b.len())); }
+		}
+	}
+	// events: before is a subsequence of after
+	let eb: Vec<String> = before.iter().filter(|l| line_kind(l) == "event").map(|l| event_body(l)).collect();
+	let ea: Vec<String> = after.iter().filter(|l| line_kind(l) == "event").map(|l| event_body(l)).collect();
+	let mut j = 0;
+	for e in &eb {
+		match ea[j..].iter().position(|x| x == e) {
+			Some(p) => { for x in &ea[j..j + p] { added.push(format!("event-added-by-reload:{}", event_kind(x))); } j += p + 1; },
+			None => diffs.push(format!("pending event lost (or reordered) by the reload: {}", e)),
+		}
+	}
+	for x in &ea[j.min(ea.len())..] { added.push(format!("event-added-by-reload:{}", event_kind(x))); }
+	// may only disappear
+	for k in ["in_flight", "blocked_action", "claiming"] {
+		let (a, b) = (pick(before, k), pick(after, k));
+		for l in b.iter().filter(|l| !a.contains(l)) {
+			// in-flight ids may shrink (a prefix completed): compare per channel only for in_flight
+			if k == "in_flight" { added.push("in-flight-list-changed-by-reload".into()); } else { diffs.push(format!("only after the reload: {}", l)); }
+		}
+		for _ in a.iter().filter(|l| !b.contains(l)) { added.push(format!("{}-resolved-by-reload", k)); }
+	}
+	for l in after.iter().filter(|l| line_kind(l) == "background") { added.push(format!("background-event-after-reload:{}", l.split(' ').nth(1).unwrap_or(""))); }
+	diffs
+}
+
+/// read the serialized manager of node i (with freshly re-read copies of its monitors) into a NEW ChannelManager that is
+/// never installed, and return its deep dump: write -> read -> dump without restarting the node
+fn shadow_reload_dump(net: &Net, i: usize) -> Result<Vec<String>, String> {
+	use lightning::ln::channelmanager::ChannelManagerReadArgs;
+	let node = &net.nodes[i];
+	let (mgr, mons) = net.snapshot(i);
+	let mut monitors: Vec<Mon> = vec![];
+	for m in &mons { monitors.push(read_mon(m, node.keys_manager).map_err(|e| format!("monitor does not read back: {:?}", e))?); }
+	let mut map = lightning::util::hash_tables::new_hash_map();
+	for m in monitors.iter() { map.insert(m.channel_id(), m); }
+	let args = ChannelManagerReadArgs {
+		config: node.node.get_current_config(), entropy_source: node.keys_manager, node_signer: node.keys_manager, signer_provider: node.keys_manager,
+		fee_estimator: node.fee_estimator, router: node.router, message_router: node.message_router, chain_monitor: node.chain_monitor,
+		tx_broadcaster: node.tx_broadcaster, logger: node.logger, channel_monitors: map,
+	};
+	let mut s = &mgr[..];
+	match guarded(AssertUnwindSafe(|| <(BlockLocator, TestChannelManager<'static, 'static>)>::read(&mut s, args))) {
+		Err(p) => Err(format!("ChannelManager::read panics on its own serialization: {}", p.chars().take(200).collect::<String>())),
+		Ok(Err(e)) => Err(format!("ChannelManager does not read back from its own serialization: {:?}", e)),
+		Ok(Ok((_, m2))) => Ok(vh::manager_persisted_state_dump(&m2)),
+	}
+}
+
+fn shadow_check(net: &Net, i: usize, st: &mut St, ctx: &mut Ctx, op: &str) {
+	let before = vh::manager_persisted_state_dump(net.nodes[i].node);
+	for l in &before { let k = line_kind(l).to_string(); if k != "event" { st.mon_states.insert(format!("mgr:{}", k)); } }
+	match shadow_reload_dump(net, i) {
+		Err(e) => ctx.fail(format!("after {}: node {}: {}", op, i, e)),
+		Ok(after) => {
+			st.n_shadow += 1;
+			let mut added = vec![];
+			let d = deep_diff(&before, &after, &mut added);
+			for a in added { ctx.bump(&format!("deep:{}", a)); }
+			if !d.is_empty() { ctx.fail(format!("after {}: ChannelManager of node {} written and read back differs in its persisted payment state: {}", op, i, d.iter().take(3).map(|s| s.chars().take(420).collect::<String>()).collect::<Vec<_>>().join(" || "))); }
+		},
+	}
+}
+
+/// per-channel `ChannelConfig` as `list_channels` reports it
+fn chan_configs(net: &Net, i: usize) -> Vec<(ChannelId, bitcoin::secp256k1::PublicKey, Option<lightning::util::config::ChannelConfig>)> {
+	let mut v: Vec<_> = net.nodes[i].node.list_channels().into_iter().map(|c| (c.channel_id, c.counterparty.node_id, c.config)).collect();
+	v.sort_by_key(|x| x.0);
+	v
+}
+/// the channel configuration is part of the manager's observable state ("channels, balances, limits"): it must survive
+/// write + reload.  A difference is reported (once per run and field), then the pre-write configuration is re-applied through
+/// the public `update_channel_config`, so that the scenario keeps exploring what lies behind.
+fn check_configs_survive(net: &mut Net, i: usize, before: &[(ChannelId, bitcoin::secp256k1::PublicKey, Option<lightning::util::config::ChannelConfig>)], ctx: &mut Ctx, at: &str) {
+	let after = chan_configs(net, i);
+	for (cid, peer, cfg) in before {
+		let now = after.iter().find(|x| x.0 == *cid).map(|x| x.2);
+		if let (Some(b), Some(Some(a))) = (cfg, now) {
+			if *b != a {
+				let field = if b.accept_underpaying_htlcs != a.accept_underpaying_htlcs { "accept_underpaying_htlcs" } else { "other" };
+				ctx.fail_once(&format!("config-lost:{}", field), format!("ChannelConfig::{} of a channel is lost by a ChannelManager write+reload: list_channels().config of node {}'s channel {} was {:?} before the manager was written and is {:?} after it was read back ({})", field, i, cid, b, a, at));
+				let _ = net.nodes[i].node.update_channel_config(peer, &[*cid], b);
+				net.pump(i);
+			}
+		}
+	}
+}
+
 /// observable state of a ChannelManager that must survive write + reload (the peer is disconnected in both)
 fn mgr_dump(net: &Net, i: usize) -> Vec<String> {
 	let n = &net.nodes[i].node;
@@ -519,6 +667,7 @@ fn reload_check(net: &mut Net, i: usize, st: &mut St, ctx: &mut Ctx) {
 	net.process_events(i);
 	check_all(net, st, ctx, "pre-reload");
 	let before = mgr_dump(net, i);
+	let deep_before = vh::manager_persisted_state_dump(net.nodes[i].node);
 	let (mgr, mons) = net.snapshot(i);
 	st.prev.retain(|k, _| k.0 != i);
 	match net.restart_from(i, &mgr, &mons) {
@@ -530,6 +679,11 @@ fn reload_check(net: &mut Net, i: usize, st: &mut St, ctx: &mut Ctx) {
 				let d: Vec<String> = before.iter().filter(|x| !after.contains(x)).chain(after.iter().filter(|x| !before.contains(x))).map(|s| s.chars().take(400).collect()).take(4).collect();
 				ctx.fail(format!("ChannelManager of node {}: observable state differs after write+reload: {:?}", i, d));
 			}
+			let deep_after = vh::manager_persisted_state_dump(net.nodes[i].node);
+			let mut added = vec![];
+			let dd = deep_diff(&deep_before, &deep_after, &mut added);
+			for a in added { ctx.bump(&format!("deep:{}", a)); }
+			if !dd.is_empty() { ctx.fail(format!("ChannelManager of node {}: persisted payment state differs after write+reload: {}", i, dd.iter().take(3).map(|s| s.chars().take(420).collect::<String>()).collect::<Vec<_>>().join(" || "))); }
 			let n_before = net.events[i].len();
 			net.process_events(i);
 			for e in &net.events[i][n_before..] { let k = format!("{:?}", e); ctx.bump(&format!("event-after-reload:{}", k.split(|c: char| !c.is_alphanumeric()).next().unwrap_or(""))); }
@@ -588,6 +742,7 @@ fn scenario(sub: &mut Rng, st: &mut St, ctx: &mut Ctx, steps: usize, with_close:
 		}
 		ctx.bump(&format!("op:{}", op));
 		check_all(&net, st, ctx, &op);
+		if ctx.thorough { for i in 0..3 { shadow_check(&net, i, st, ctx, &op); } } else { shadow_check(&net, step % 3, st, ctx, &op); }
 	}
 	for i in 0..3 { check_graph_scorer(&net, i, st, ctx, "scenario-end"); }
 	if with_close {
@@ -648,11 +803,326 @@ fn scenario(sub: &mut Rng, st: &mut St, ctx: &mut Ctx, steps: usize, with_close:
 }
 
 // ---------------------------------------------------------------------------------------------------
+// (vi) rare manager states + behavioural oracle.  Scripted (deterministic) scenarios on 3 nodes 0 -> 1 -> 2, node 1
+// intercepting forwards to its intercept scid, node 2 accepting underpaying HTLCs:
+//   underpaid / over-forwarded claimable HTLCs (value != sender_intended_value), partially received multi-part
+//   payments, intercepted HTLCs awaiting a decision, HTLCs in the holding cell, in-flight (InProgress) monitor updates
+//   with blocked completion actions, pending claims.
+// A script is a list of acts; `Auto(n)` expands to n micro-steps (deliver ONE message | forward | process events), so
+// every message boundary is a cut point.  For a cut (k, x):
+//   reload run    acts[..k]; node x's manager + monitors are WRITTEN as they are and the node restarted from the bytes
+//                 (deep dump before the write == deep dump after the reload, see (v)); reconnect; acts[k..]; settle
+//   original run  acts[..k]; node x's peers are disconnected and reconnected (what writing implies), its in-flight
+//                 persists reported complete (the restart hands over the latest monitors); acts[k..]; settle
+// and the two runs must end the same: the same set of payment events at every node (kind, hash, amounts, failure
+// reasons) and the same observable end state.  Events may be REPLAYED by a reload, so sets, not multisets.
+// ---------------------------------------------------------------------------------------------------
+#[derive(Clone, Debug)]
+enum Act {
+	/// node 0 pays node 2 through node 1, `parts` HTLCs; the last hop uses node 1's intercept scid when `intercept`
+	Pay { parts: usize, amt: u64, intercept: bool },
+	/// a 1-hop payment over channel c (c0: 0<->1, c1: 1<->2)
+	PayDirect { from: usize, to: usize, chan: usize, amt: u64 },
+	/// one micro-step: deliver the oldest message of the first non-empty queue | else forward at the first node that
+	/// needs it | else process the events of every node
+	Micro,
+	/// node 1 forwards its oldest undecided intercepted HTLC with `expected_outbound - delta` (delta < 0: over-forwards)
+	Intercept { delta: i64 },
+	FailIntercept,
+	/// 4 (> MPP_TIMEOUT_TICKS) timer ticks at the node
+	Ticks(usize),
+	/// every claimable payment not decided yet is claimed / failed back by its recipient
+	Claim, FailBack,
+	Mode(usize, bool), Complete(usize),
+	Blocks(u32),
+}
+fn auto(v: &mut Vec<Act>, n: usize) { for _ in 0..n { v.push(Act::Micro); } }
+
+struct Script { name: String, acts: Vec<Act> }
+
+fn rare_scripts(rng: &mut Rng) -> Vec<Script> {
+	let amt = 600_000 + rng.below(400_000);
+	let skim = 1 + rng.below(5_000) as i64;
+	let over = 1 + rng.below(3_000) as i64;
+	let mut out = vec![];
+	// one underpaid / over-forwarded HTLC: intercepted (awaiting a decision), forwarded with a skimmed fee, claimable, ticks, then claim | fail | blocks
+	for (tag, delta) in [("underpaid", skim), ("overforwarded", -over)] {
+		for tail in ["claim", "fail", "blocks"] {
+			let mut a = vec![Act::Pay { parts: 1, amt, intercept: true }]; auto(&mut a, 14);
+			a.push(Act::Intercept { delta }); auto(&mut a, 14);
+			a.push(Act::Ticks(2)); auto(&mut a, 2);
+			match tail { "claim" => a.push(Act::Claim), "fail" => a.push(Act::FailBack), _ => { a.push(Act::Blocks(40)); a.push(Act::Ticks(2)); a.push(Act::Blocks(60)); } }
+			auto(&mut a, 24);
+			out.push(Script { name: format!("{}-{} amt={} delta={}", tag, tail, amt, delta), acts: a });
+		}
+	}
+	// two-part payment, each part skimmed; partially received in between
+	{
+		let mut a = vec![Act::Pay { parts: 2, amt, intercept: true }]; auto(&mut a, 22);
+		a.push(Act::Intercept { delta: skim }); auto(&mut a, 14);
+		a.push(Act::Intercept { delta: skim / 2 }); auto(&mut a, 14);
+		a.push(Act::Ticks(2)); auto(&mut a, 2); a.push(Act::Claim); auto(&mut a, 30);
+		out.push(Script { name: format!("mpp2-underpaid-claim amt={} skims={},{}", amt, skim, skim / 2), acts: a });
+		// the second part is decided only after the first timed out
+		let mut a = vec![Act::Pay { parts: 2, amt, intercept: true }]; auto(&mut a, 22);
+		a.push(Act::Intercept { delta: skim }); auto(&mut a, 14);
+		a.push(Act::Ticks(2)); auto(&mut a, 16);
+		a.push(Act::Intercept { delta: 0 }); auto(&mut a, 14);
+		a.push(Act::Ticks(2)); auto(&mut a, 24);
+		out.push(Script { name: format!("mpp2-partial-timeout amt={} skim={}", amt, skim), acts: a });
+		// one part forwarded, the other failed by the interceptor
+		let mut a = vec![Act::Pay { parts: 2, amt, intercept: true }]; auto(&mut a, 22);
+		a.push(Act::Intercept { delta: -over }); auto(&mut a, 14);
+		a.push(Act::FailIntercept); auto(&mut a, 14);
+		a.push(Act::Ticks(2)); auto(&mut a, 24);
+		out.push(Script { name: format!("mpp2-one-part-failed amt={} over={}", amt, over), acts: a });
+	}
+	// holding cell: three sends back to back (the 2nd and 3rd wait in the holding cell for the first RAA), both directions
+	{
+		let mut a = vec![Act::PayDirect { from: 0, to: 1, chan: 0, amt: 40_000 + rng.below(10_000) }, Act::PayDirect { from: 0, to: 1, chan: 0, amt: 50_000 + rng.below(10_000) }, Act::Micro, Act::Micro,
+			Act::PayDirect { from: 1, to: 0, chan: 0, amt: 60_000 + rng.below(10_000) }, Act::Pay { parts: 1, amt, intercept: false }];
+		auto(&mut a, 40); a.push(Act::Claim); auto(&mut a, 40);
+		out.push(Script { name: format!("holding-cell amt={}", amt), acts: a });
+	}
+	// in-flight monitor updates, blocked completion actions, pending claims: the recipient and the forwarding node persist
+	// asynchronously while the claim travels back
+	{
+		let mut a = vec![Act::Pay { parts: 1, amt, intercept: false }]; auto(&mut a, 26);
+		a.push(Act::Mode(2, true)); a.push(Act::Mode(1, true)); a.push(Act::Claim); auto(&mut a, 6);
+		a.push(Act::Complete(2)); auto(&mut a, 8); a.push(Act::Complete(1)); auto(&mut a, 8); a.push(Act::Complete(1)); a.push(Act::Complete(2)); a.push(Act::Mode(1, false)); a.push(Act::Mode(2, false)); auto(&mut a, 30);
+		out.push(Script { name: format!("async-persist-claim amt={}", amt), acts: a });
+		let mut a = vec![Act::Pay { parts: 2, amt, intercept: true }]; auto(&mut a, 22);
+		a.push(Act::Mode(1, true)); a.push(Act::Intercept { delta: skim }); a.push(Act::Intercept { delta: 0 }); auto(&mut a, 8); a.push(Act::Complete(1)); auto(&mut a, 24);
+		a.push(Act::Mode(2, true)); a.push(Act::Claim); auto(&mut a, 6); a.push(Act::Complete(2)); auto(&mut a, 6); a.push(Act::Complete(1)); a.push(Act::Complete(2)); a.push(Act::Mode(1, false)); a.push(Act::Mode(2, false)); auto(&mut a, 40);
+		out.push(Script { name: format!("async-persist-mpp2-underpaid amt={} skim={}", amt, skim), acts: a });
+	}
+	out
+}
+
+struct Rare { net: Net, c0: usize, c1: usize, decided_intercepts: BTreeSet<[u8; 32]>, decided_pays: BTreeSet<PaymentHash>, notes: Vec<String> }
+
+fn ev_summary(e: &Event) -> String {
+	match e {
+		Event::PaymentClaimable { payment_hash, amount_msat, counterparty_skimmed_fee_msat, .. } => format!("PaymentClaimable {} amt={} skimmed={}", payment_hash, amount_msat, counterparty_skimmed_fee_msat),
+		Event::PaymentClaimed { payment_hash, amount_msat, htlcs, sender_intended_total_msat, .. } => format!("PaymentClaimed {} amt={} parts={} sender_intended_total={:?}", payment_hash, amount_msat, htlcs.len(), sender_intended_total_msat),
+		Event::PaymentSent { payment_hash, fee_paid_msat, .. } => format!("PaymentSent {} fee={:?}", payment_hash, fee_paid_msat),
+		Event::PaymentFailed { payment_hash, reason, .. } => format!("PaymentFailed {:?} reason={:?}", payment_hash, reason),
+		Event::PaymentPathFailed { payment_hash, payment_failed_permanently, .. } => format!("PaymentPathFailed {} perm={}", payment_hash, payment_failed_permanently),
+		Event::PaymentPathSuccessful { payment_hash, .. } => format!("PaymentPathSuccessful {:?}", payment_hash),
+		Event::PaymentForwarded { total_fee_earned_msat, skimmed_fee_msat, claim_from_onchain_tx, outbound_amount_forwarded_msat, .. } => format!("PaymentForwarded fee={:?} skimmed={:?} onchain={} out_amt={:?}", total_fee_earned_msat, skimmed_fee_msat, claim_from_onchain_tx, outbound_amount_forwarded_msat),
+		Event::HTLCHandlingFailed { failure_type, failure_reason, .. } => { let t = format!("{:?}", failure_type); format!("HTLCHandlingFailed {} reason={:?}", t.split(|c: char| !c.is_alphanumeric()).next().unwrap_or(""), failure_reason) },
+		Event::HTLCIntercepted { payment_hash, inbound_amount_msat, expected_outbound_amount_msat, .. } => format!("HTLCIntercepted {} in={} expected_out={}", payment_hash, inbound_amount_msat, expected_outbound_amount_msat),
+		Event::ChannelClosed { reason, .. } => format!("ChannelClosed {}", format!("{:?}", reason).chars().take(60).collect::<String>()),
+		other => format!("{:?}", other).chars().take(48).collect(),
+	}
+}
+
+impl Rare {
+	fn new() -> Rare {
+		let mut icfg = test_default_channel_config();
+		icfg.htlc_interception_flags = lightning::util::config::HTLCInterceptionFlags::ToInterceptSCIDs as u8;
+		let mut ucfg = test_default_channel_config();
+		ucfg.channel_config.accept_underpaying_htlcs = true;
+		let mut net = Net::new(3, vec![Some(test_default_channel_config()), Some(icfg), Some(ucfg)]);
+		let c0 = net.open(0, 1, 1_000_000, 300_000_000);
+		let c1 = net.open(1, 2, 1_000_000, 300_000_000);
+		Rare { net, c0, c1, decided_intercepts: BTreeSet::new(), decided_pays: BTreeSet::new(), notes: vec![] }
+	}
+	fn pay(&mut self, nodes: &[usize], scids: &[u64], parts: usize, amt: u64) {
+		use lightning::ln::channelmanager::PaymentId;
+		use lightning::ln::outbound_payment::RecipientOnionFields;
+		use lightning::routing::router::{PaymentParameters, Route, RouteParameters};
+		let net = &mut self.net;
+		let (src, dst) = (nodes[0], *nodes.last().unwrap());
+		let (preimage, hash, secret) = get_payment_preimage_hash(&net.nodes[dst], Some(amt), None);
+		let mut paths = vec![];
+		for p in 0..parts {
+			let part = if p + 1 == parts { amt - (amt / parts as u64) * (parts as u64 - 1) } else { amt / parts as u64 };
+			let mut hops = vec![];
+			for k in 1..nodes.len() {
+				let last = k == nodes.len() - 1;
+				hops.push(RouteHop { pubkey: net.ids[nodes[k]], node_features: NodeFeatures::empty(), short_channel_id: scids[k - 1], channel_features: ChannelFeatures::empty(),
+					fee_msat: if last { part } else { 1000 }, cltv_expiry_delta: if last { 80 } else { 48 }, maybe_announced_channel: true });
+			}
+			paths.push(Path { hops, blinded_tail: None });
+		}
+		let params = PaymentParameters::from_node_id(net.ids[dst], 80).with_bolt11_features(net.nodes[dst].node.bolt11_invoice_features()).unwrap();
+		let route = Route { paths, route_params: RouteParameters::from_payment_params_and_value(params, amt) };
+		let id = PaymentId(hash.0);
+		let r = net.nodes[src].node.send_payment_with_route(route, hash, RecipientOnionFields::secret_only(secret, amt), id);
+		net.pump(src);
+		match r { Ok(()) => net.pays.push(PendingPay { hash, preimage, secret, amt, id, from: src, to: dst }), Err(e) => self.notes.push(format!("send refused: {:?}", e).chars().take(100).collect()) }
+	}
+	/// returns whether the act did anything
+	fn apply(&mut self, act: &Act) -> bool {
+		match act {
+			Act::Pay { parts, amt, intercept } => {
+				let s0 = self.net.chans[self.c0].3;
+				let s1 = if *intercept { self.net.nodes[1].node.get_intercept_scid() } else { self.net.chans[self.c1].3 };
+				self.pay(&[0, 1, 2], &[s0, s1], *parts, *amt); true
+			},
+			Act::PayDirect { from, to, chan, amt } => { let c = if *chan == 0 { self.c0 } else { self.c1 }; let s = self.net.chans[c].3; self.pay(&[*from, *to], &[s], 1, *amt); true },
+			Act::Micro => {
+				if let Some((i, j)) = self.net.any_queued() { self.net.deliver(i, j); return true; }
+				for i in 0..3 { if self.net.nodes[i].node.needs_pending_htlc_processing() { self.net.forward(i); return true; } }
+				let mut any = false;
+				for i in 0..3 { let n = self.net.events[i].len(); self.net.process_events(i); if self.net.events[i].len() != n { any = true; } }
+				any
+			},
+			Act::Intercept { .. } | Act::FailIntercept => {
+				let pending: Vec<(lightning::ln::channelmanager::InterceptId, u64)> = self.net.events[1].iter().filter_map(|e| match e { Event::HTLCIntercepted { intercept_id, expected_outbound_amount_msat, .. } if !self.decided_intercepts.contains(&intercept_id.0) => Some((*intercept_id, *expected_outbound_amount_msat)), _ => None }).collect();
+				let (id, expected) = match pending.first() { Some(x) => *x, None => return false };
+				self.decided_intercepts.insert(id.0);
+				let r = match act {
+					Act::Intercept { delta } => { let amt = (expected as i64 - *delta).max(1) as u64; let (cid, peer) = (self.net.chans[self.c1].2, self.net.ids[2]); self.net.nodes[1].node.forward_intercepted_htlc(id, &cid, peer, amt) },
+					_ => self.net.nodes[1].node.fail_intercepted_htlc(id),
+				};
+				if let Err(e) = r { self.notes.push(format!("intercept decision refused: {:?}", e).chars().take(120).collect()); }
+				self.net.pump(1); true
+			},
+			Act::Ticks(i) => { for _ in 0..4 /* > MPP_TIMEOUT_TICKS: 3 in production, 1 under _test_utils (crate-private) */ { self.net.nodes[*i].node.timer_tick_occurred(); } self.net.pump(*i); true },
+			Act::Claim | Act::FailBack => {
+				let mut any = false;
+				for p in 0..self.net.pays.len() {
+					let (to, h) = (self.net.pays[p].to, self.net.pays[p].hash);
+					if self.decided_pays.contains(&h) || !self.net.claimable[to].iter().any(|c| c.0 == h) { continue; }
+					self.decided_pays.insert(h); any = true;
+					if matches!(act, Act::Claim) { self.net.claim(p); } else { self.net.fail_back(p); }
+				}
+				any
+			},
+			Act::Mode(i, m) => { if !*m { complete_all(&mut self.net, *i); } self.net.set_mode(*i, *m); true },
+			Act::Complete(i) => { let mut any = false; for c in [self.c0, self.c1] { if self.net.chans[c].0 == *i || self.net.chans[c].1 == *i { if let Some(id) = self.net.pending_updates(*i, c).first().cloned() { self.net.complete(*i, c, id); any = true; } } } any },
+			Act::Blocks(n) => { for i in 0..3 { connect_blocks(&self.net.nodes[i], *n); } self.net.pump_all(); true },
+		}
+	}
+	fn drain(&mut self) { for _ in 0..400 { match self.net.any_queued() { Some((i, j)) => { self.net.deliver(i, j); }, None => break } } }
+	fn peers_of(&self, x: usize) -> Vec<usize> { (0..3).filter(|j| *j != x && self.net.chans.iter().any(|c| (c.0 == x && c.1 == *j) || (c.0 == *j && c.1 == x))).collect() }
+}
+
+struct Outcome { events: Vec<BTreeSet<String>>, end: Vec<Vec<String>>, effective: Vec<bool>, states: BTreeSet<String>, problem: Option<String>, notes: Vec<String> }
+
+/// cut = (k, node, reload?)
+fn run_script(sc: &Script, cut: Option<(usize, usize, bool)>, ctx: &mut Ctx, added: &mut Vec<String>) -> Outcome {
+	let mut r = Rare::new();
+	let mut effective = vec![];
+	let mut states = BTreeSet::new();
+	let mut problem = None;
+	for (k, act) in sc.acts.iter().enumerate() {
+		if let Some((ck, x, reload)) = cut { if ck == k {
+			if reload {
+				let deep_before = vh::manager_persisted_state_dump(r.net.nodes[x].node);
+				for l in &deep_before { if line_kind(l) == "claimable" && claimable_partial(l) { states.insert("written:claimable:partially-received-mpp".into()); } }
+				for d in r.net.nodes[x].node.list_channels() {
+					if d.pending_outbound_htlcs.iter().any(|h| h.htlc_id.is_none()) { states.insert("written:channel:htlc-in-holding-cell".into()); }
+					for h in &d.pending_inbound_htlcs { states.insert(format!("written:channel:inbound-htlc:{:?}", h.state)); }
+					for h in &d.pending_outbound_htlcs { states.insert(format!("written:channel:outbound-htlc:{:?}", h.state)); }
+					if let Some(n) = vh::channel_restart_numbers(r.net.nodes[x].node, &d.counterparty.node_id, &d.channel_id) { if n[5] > 0 { states.insert("written:channel:blocked-monitor-updates".into()); } if n[0] != n[1] { states.insert("written:channel:unreleased-monitor-update".into()); } }
+				}
+				for l in &deep_before { states.insert(match line_kind(l) { "event" => format!("written:event:{}", event_kind(&event_body(l))), "claimable" => format!("written:claimable{}{}", if l.matches("{value=").count() > 1 { ":multi-part" } else { "" }, if claimable_amounts_differ(l) { ":value!=sender_intended" } else { "" }), k => format!("written:{}", k) }); }
+				let (mgr, mons) = r.net.snapshot(x);
+				let cfgs = chan_configs(&r.net, x);
+				match r.net.restart_from(x, &mgr, &mons) {
+					Err(p) => { problem = Some(format!("ChannelManager of node {} does not reload from its own serialization: {}", x, p)); break; },
+					Ok(()) => {
+						check_configs_survive(&mut r.net, x, &cfgs, ctx, &format!("scenario `{}`, reload before act #{}", sc.name, k));
+						let deep_after = vh::manager_persisted_state_dump(r.net.nodes[x].node);
+						let d = deep_diff(&deep_before, &deep_after, added);
+						if !d.is_empty() && problem.is_none() { problem = Some(format!("persisted payment state of node {} differs after write+reload: {}", x, d.iter().take(3).map(|s| s.chars().take(420).collect::<String>()).collect::<Vec<_>>().join(" || "))); }
+					},
+				}
+			} else {
+				complete_all(&mut r.net, x); r.net.set_mode(x, false);
+				for j in r.peers_of(x) { if r.net.connected.contains(&(x, j)) { r.net.disconnect(x, j); } }
+			}
+			for j in r.peers_of(x) { if !r.net.connected.contains(&(x, j)) { r.net.reconnect(x, j); } }
+			r.drain();
+		} }
+		effective.push(r.apply(act));
+	}
+	// settle
+	for i in 0..3 { complete_all(&mut r.net, i); r.net.set_mode(i, false); }
+	r.net.settle(30);
+	let _ = ctx;
+	let events = (0..3).map(|i| r.net.events[i].iter().map(ev_summary).collect()).collect();
+	let end = (0..3).map(|i| mgr_dump(&r.net, i)).collect();
+	let notes = r.notes.clone();
+	std::mem::forget(r);
+	Outcome { events, end, effective, states, problem, notes }
+}
+
+/// a `claimable` dump line whose parts do not add up to the total yet
+fn claimable_partial(l: &str) -> bool {
+	let num = |s: &str, key: &str| -> Vec<u64> { s.match_indices(key).map(|(p, _)| s[p + key.len()..].chars().take_while(|c| c.is_ascii_digit()).collect::<String>().parse().unwrap_or(0)).collect() };
+	let total = num(l, " total_msat=").first().cloned().unwrap_or(0);
+	num(l, " sender_intended_value=").iter().sum::<u64>() < total
+}
+fn claimable_amounts_differ(l: &str) -> bool {
+	let num = |s: &str, key: &str| -> Vec<u64> { s.match_indices(key).map(|(p, _)| s[p + key.len()..].chars().take_while(|c| c.is_ascii_digit()).collect::<String>().parse().unwrap_or(0)).collect() };
+	let (v, sv) = (num(l, "{value="), num(l, " sender_intended_value="));
+	v.iter().zip(sv.iter()).any(|(a, b)| a != b)
+}
+
+fn rare_states(seed: u64, st: &mut St, ctx: &mut Ctx) {
+	let mut rng = Rng::new(seed ^ 0x12a4e);
+	let scripts = rare_scripts(&mut rng);
+	let only = std::env::var("C12_RARE").ok();
+	for sc in scripts.iter() {
+		if let Some(o) = &only { if !sc.name.starts_with(o.as_str()) { continue; } }
+		let mut added = vec![];
+		// the run without any cut: which micro-steps do something (cut points), and is the script itself deterministic
+		let base = match guarded(AssertUnwindSafe(|| run_script(sc, None, ctx, &mut added))) { Ok(o) => o, Err(p) => { ctx.fail(format!("rare-state scenario {} panicked without any reload: {}", sc.name, p.chars().take(300).collect::<String>())); continue; } };
+		st.n_rare_runs += 1;
+		for n in &base.notes { ctx.bump(&format!("rare-note:{}", n.split(':').next().unwrap_or("").replace(' ', "-"))); }
+		for i in 0..3 { for e in &base.events[i] { st.mon_states.insert(format!("rare-event:{}", e.split(' ').next().unwrap_or(""))); } }
+		let mut cuts: Vec<usize> = (0..sc.acts.len()).filter(|k| *k == 0 || base.effective[*k - 1]).collect();
+		if !ctx.thorough {
+			// quick tier: every cut point within two steps of a non-micro act (the rare states sit there), every third one of the rest
+			let near = |k: usize| (k.saturating_sub(2)..(k + 3).min(sc.acts.len())).any(|j| !matches!(sc.acts[j], Act::Micro));
+			let mut n = 0usize;
+			cuts.retain(|k| near(*k) || { n += 1; n % 3 == 0 });
+		}
+		for &k in &cuts {
+			// quick tier: one node per cut point (rotating), every third cut point for the long tails; thorough: all three nodes
+			let concerned = |a: &Act| -> Vec<usize> { match a { Act::Pay { .. } => vec![0], Act::PayDirect { from, .. } => vec![*from], Act::Intercept { .. } | Act::FailIntercept => vec![1], Act::Ticks(i) | Act::Mode(i, _) | Act::Complete(i) => vec![*i], Act::Claim | Act::FailBack => vec![2], Act::Blocks(_) => vec![2], Act::Micro => vec![] } };
+			let mut nodes: Vec<usize> = if ctx.thorough { vec![0, 1, 2] } else { let mut v = concerned(&sc.acts[k]); if k > 0 { v.extend(concerned(&sc.acts[k - 1])); } v };
+			if nodes.is_empty() { nodes.push([2usize, 1, 2, 0][(k + rng.below(4) as usize) % 4]); }
+			nodes.sort(); nodes.dedup();
+			for &x in &nodes {
+				let orig = match guarded(AssertUnwindSafe(|| run_script(sc, Some((k, x, false)), ctx, &mut added))) { Ok(o) => o, Err(p) => { ctx.fail(format!("rare-state scenario {} panicked (original run, disconnect of node {} before act {}): {}", sc.name, x, k, p.chars().take(300).collect::<String>())); continue; } };
+				let rel = match guarded(AssertUnwindSafe(|| run_script(sc, Some((k, x, true)), ctx, &mut added))) { Ok(o) => o, Err(p) => { ctx.fail(format!("rare-state scenario {}: run with node {} written and reloaded before act {} ({:?}) panicked: {}", sc.name, x, k, sc.acts[k], p.chars().take(300).collect::<String>())); continue; } };
+				st.n_rare_runs += 2; st.n_rare_cuts += 1;
+				for s in &rel.states { st.mon_states.insert(format!("rare:{}", s)); }
+				let at = format!("scenario `{}`: node {} written and reloaded before act #{} {:?} (acts so far: {})", sc.name, x, k, sc.acts[k], sc.acts[..k].iter().filter(|a| !matches!(a, Act::Micro)).map(|a| format!("{:?}", a)).collect::<Vec<_>>().join(", "));
+				let family = sc.name.split(" amt=").next().unwrap_or("").to_string();
+				if let Some(p) = &rel.problem { ctx.fail_once(&format!("rare-deep:{}", family), format!("{}: {}", at, p)); }
+				let mut diffs = vec![];
+				for i in [x, (x + 1) % 3, (x + 2) % 3] {
+					for e in orig.events[i].iter().filter(|e| !rel.events[i].contains(*e)) { diffs.push(format!("node {}: only the ORIGINAL produced `{}`", i, e)); }
+					for e in rel.events[i].iter().filter(|e| !orig.events[i].contains(*e)) { diffs.push(format!("node {}: only the run with the RELOADED manager produced `{}`", i, e)); }
+				}
+				if !diffs.is_empty() && std::env::var("C12_DEBUG").is_ok() { eprintln!("== {}\n{}\n-- notes orig {:?} rel {:?}", at, diffs.join("\n"), orig.notes, rel.notes); }
+				if !diffs.is_empty() { ctx.fail_once(&format!("rare-behaviour:{}", family), format!("{}: the reloaded manager does not behave like the original (same acts, node {} only disconnected and reconnected instead): {}", at, x, diffs.iter().take(6).cloned().collect::<Vec<_>>().join("; "))); }
+				else {
+					for i in 0..3 { if orig.end[i] != rel.end[i] {
+						let d: Vec<String> = orig.end[i].iter().filter(|l| !rel.end[i].contains(l)).map(|l| format!("original: {}", l.chars().take(300).collect::<String>())).chain(rel.end[i].iter().filter(|l| !orig.end[i].contains(l)).map(|l| format!("reloaded: {}", l.chars().take(300).collect::<String>()))).take(2).collect();
+						ctx.fail_once(&format!("rare-end:{}", family), format!("{}: same events but a different observable end state at node {}: {}", at, i, d.join(" || ")));
+						break;
+					} }
+				}
+				ctx.bump("rare:cut-compared");
+			}
+		}
+		for a in added { ctx.bump(&format!("deep:{}", a)); }
+	}
+}
+
+// ---------------------------------------------------------------------------------------------------
 fn main() {
 	let args = &parse_args("c12");
 	silence_stdout();
 	let rec = Rec::new(&args.out, "c12");
-	let mut ctx = Ctx { rec, rng: Rng::new(args.seed ^ 0xc12), tab: Tab::load(), thorough: args.thorough, stats: BTreeMap::new(), in_corruption: false };
+	let mut ctx = Ctx { rec, rng: Rng::new(args.seed ^ 0xc12), tab: Tab::load(), thorough: args.thorough, stats: BTreeMap::new(), in_corruption: false, once: BTreeSet::new() };
 	let mut rng = Rng::new(args.seed);
 	let mut st = St::default();
 	let n_scen = if args.thorough { 240 } else { 24 } * args.scale as usize;
@@ -662,6 +1132,7 @@ fn main() {
 		let with_close = sc % 2 == 1;
 		let mut sub = Rng::new(rng.next());
 		if let Ok(only) = std::env::var("C12_ONLY") { if only.parse::<usize>().ok() != Some(sc) { continue; } }
+		if std::env::var("C12_RARE").is_ok() { continue; }
 		st.prev.clear(); st.seen_ev.clear();
 		let fails_before = ctx.rec.oracle_failures.len();
 		match guarded(AssertUnwindSafe(|| scenario(&mut sub, &mut st, &mut ctx, steps, with_close))) {
@@ -671,6 +1142,9 @@ fn main() {
 		// name the scenario of new failures
 		for k in fails_before..ctx.rec.oracle_failures.len() { let f = &mut ctx.rec.oracle_failures[k]; if !f.is_empty() && !f.starts_with("scenario ") { *f = format!("scenario {}: {}", sc, f); } }
 	}
+
+	// ---- (vi) rare manager states, written and reloaded at every cut point, with the behavioural comparison ----------
+	if std::env::var("C12_ONLY").is_err() { rare_states(args.seed, &mut st, &mut ctx); }
 
 	// ---- (iv) malformed streams + op lines -----------------------------------------------------------
 	let (n_frame, n_corrupt) = if args.thorough { (40, 60) } else { (14, 12) };
@@ -783,7 +1257,7 @@ fn main() {
 	let mut rec = ctx.rec;
 	for (k, v) in ctx.stats.iter() { if k.starts_with("op:") || k.starts_with("obj:") { *rec.classes.entry(k.clone()).or_insert(0) += *v; } }
 	rec.notes.insert("rule".into(), "3 real nodes / 2 channels, random schedules (1- and 2-hop sends, per-message delivery, forwards, claims/fail-backs, InProgress persistence with out-of-order completion, disconnect/reconnect, timer ticks, ChannelManager write+reload at sampled points, every second scenario ends with a unilateral close followed by 14-30 blocks); after EVERY op every monitor / new monitor update / ChannelDetails / new Event of every node is written, read back, compared (== and bytes) and new updates are applied to the re-read previous monitor and compared with the live one; op lines = TLV-level mutations (frame / lpframe / ver / variant) of the collected objects; distinct = distinct op-line texts".into());
-	rec.notes.insert("roundtrips".into(), format!("monitors={} (byte-identical re-encoding: {}) monitor_updates={} update_applied_after_roundtrip={} (skipped: {}) channel_details={} events={} manager_reloads={} network_graphs={} scorers={}", st.n_mon_rt, st.n_mon_identical, st.n_upd_rt, st.n_apply, st.n_apply_skipped, st.n_det, st.n_ev, st.n_mgr, st.n_graph, st.n_scorer));
+	rec.notes.insert("roundtrips".into(), format!("monitors={} (byte-identical re-encoding: {}) monitor_updates={} update_applied_after_roundtrip={} (skipped: {}) channel_details={} events={} manager_reloads={} manager_shadow_reloads_with_deep_dump={} rare_state_runs={} rare_state_cut_points={} network_graphs={} scorers={}", st.n_mon_rt, st.n_mon_identical, st.n_upd_rt, st.n_apply, st.n_apply_skipped, st.n_det, st.n_ev, st.n_mgr, st.n_shadow, st.n_rare_runs, st.n_rare_cuts, st.n_graph, st.n_scorer));
 	rec.notes.insert("states_reached".into(), st.mon_states.iter().cloned().collect::<Vec<_>>().join(","));
 	rec.notes.insert("stats".into(), stats.join(" "));
 	rec.notes.insert("not_covered".into(), "OutputSweeper (needs an async KVStore + wallet set-up; its TLV blocks are in the generated schema list only); ChannelManager malformed-stream mutations (each needs a full node reload); lockstep behavioural comparison of a reloaded manager against the original beyond the observable dump (the scenario continues on the reloaded node under the engine's own oracles)".into());
